@@ -75,7 +75,9 @@ def leading(draw):
     if k == 7:
         # opaque expressions; floor division and modulo do NOT distribute over a sign or a constant in front
         return draw(st.sampled_from(['max(a, b)', 'min(x,y)*2', 'abs(a - b)', 'max(a,b) + y', '-(a//b)', '-(a % b)',
-                                     '-(x//2)', 'a//b', '-(y % 3)', '(a//b)*x']))
+                                     '-(x//2)', 'a//b', '-(y % 3)', '(a//b)*x',
+                                     # step functions: comparisons (ties matter: the valuations below include equal values)
+                                     '(y>=x)*a', '(a<=b)*x + y', '(a==b)*x', '(a!=b)*y', '(x >= y) - (a <= b)']))
     if k == 8:
         return draw(atom_name) + ' + ' + draw(core_term())
     if k == 9:
@@ -109,6 +111,9 @@ def addterm_case(draw):
     spec['desc'] = draw(st.sampled_from(['', 'a description', 'uses = and # inside']))
     spec['vals'] = [{n: '%d/%d' % (draw(st.integers(1, 40)) * draw(st.sampled_from([1, -1])), draw(st.integers(1, 9)))
                      for n in NAMES} for _ in range(VAL_ENV_SIZES)]
+    # one valuation in which every variable has the same value (comparisons tie)
+    tie = '%d/%d' % (draw(st.integers(1, 9)), draw(st.integers(1, 4)))
+    spec['vals'].append({n: tie for n in NAMES})
     return spec
 
 
